@@ -7,6 +7,7 @@ import (
 	"fmt"
 	"os"
 	"reflect"
+	"runtime"
 	"strings"
 	"sync"
 	"testing"
@@ -412,7 +413,10 @@ func TestC12(t *testing.T) {
 	shard := 0
 	fmt.Sscan(os.Getenv("VERIF_SHARD"), &shard)
 	if childLayer() == "concurrent" {
+		procs := []int{runtime.NumCPU(), 2, 4, 8, 1}
 		runChild(nConc, func(i int) ([]keyed, string) {
+			// schedule variety: the cells rotate through several degrees of real parallelism
+			runtime.GOMAXPROCS(procs[i%len(procs)])
 			x := c12ConcurrentValue(i, seed+shard*7919)
 			ft := vocab.FeaturesOf(x)
 			return c12Concurrent(x), fmt.Sprintf("%s lists=%v text=%v %s", vocab.GoTypeName(x), ft.Kinds[vocab.KItems], ft.Kinds[vocab.KNLV], clipStr(vocab.Dump(x), 300))
